@@ -38,6 +38,9 @@ ASSUMES = [
     "call made at the drain point start a new round (the theorem applies again to the state reached)",
 ]
 TRUSTED = [
+    "harness/py2lean.py (translator: abstract.FileDescriptor._isSendBufferFull is regenerated into lean/Generated/FD.lean on "
+    "every run, len(self.dataBuffer) as a length parameter; translator-regenerated kernel proved equal to the model: "
+    "TwistedProps.C14.gen_isSendBufferFull, gen_maybePauseProducer, gen_full_when_over_bufferSize)",
     "the fake reactor (two sets) and the scripted writeSomeData stand for the reactor and the kernel",
     "zlib.adler32 / the Lean adler32 and the shared LCG byte-stream generator used to keep 1 MiB cases on one line",
 ]
@@ -60,11 +63,13 @@ MANIFEST = {
             "registered only if that producer was registered after the write side had been shut, i.e. never had a byte "
             "accepted (close_only_after_flush, no exception left; half_closed_is_final, half_close_waits_for_producer); a "
             "registered push producer is paused whenever more than bufferSize bytes are pending and is never left paused "
-            "with a drained buffer. Model tied to abstract.py by differential runs, event by event.",
+            "with a drained buffer. Model tied to abstract.py by differential runs, event by event; the pause test "
+            "_isSendBufferFull is regenerated from abstract.py by the translator on every run and proved equal to the "
+            "model's predicate (gen_*).",
     "note": "trusts Lean kernel, the hand-written model (differentially tied), the fake reactor and scripted kernel",
     "technique": "Lean 4 proof (state invariants and monotone relations preserved by every operation, higher-order in the "
                  "producer callbacks, induction over nesting depth and history; eventual delivery by induction on the "
-                 "pending byte count) + differential tie",
+                 "pending byte count) + differential tie + translator-regenerated kernel proved equal to the model",
     "design_ref": "DESIGN.md §7 C14",
 }
 
